@@ -107,7 +107,7 @@ pub fn main(opts: &Opts) -> ! {
         harness_error(&format!("expected 36 decoder implementations, found {}", names.len()));
     }
     let (per_name, ber_runs, budget) = match opts.tier {
-        Tier::Quick => ((300.0 * opts.scale) as u64, (720.0 * opts.scale) as u64, 200.0),
+        Tier::Quick => ((600.0 * opts.scale) as u64, (2160.0 * opts.scale) as u64, 200.0),
         Tier::Thorough => ((20_000.0 * opts.scale) as u64, (20_000.0 * opts.scale) as u64, 2400.0),
     };
     // ---- (a) stand-alone histories ------------------------------------------
